@@ -24,7 +24,7 @@ NN_MEDIUM = dict(hidden_layer_sizes=(50, 20), max_iter=2000)
 def configs(draw, d, networks=(0, 0, 0, 1), periodic_ok=True, pools=('none',),
             max_live=150, batch=None, vectorized=None, small_update=True):
     n_live = draw(st.integers(4 * d, max_live))
-    n_batch = draw(batch or st.sampled_from(
+    n_batch = draw(batch if batch is not None else st.sampled_from(
         [1, 1, 2, 3, 5, 8, 13, 20, 40]))
     cfg = dict(
         n_live=n_live, n_batch=n_batch,
@@ -205,6 +205,32 @@ class Lab:
             return True
         self.hooked = [n for n in ('add_bound', 'add_samples', 'write',
                                    'write_shell_update') if wrap(n)]
+
+    def peek(self):
+        """A second sampler object built from a copy of the checkpoint file
+        as it is right now (the live object is untouched).  No pools."""
+        from nautilus import Sampler
+        d = tempfile.mkdtemp(prefix='nvpeek-', dir=self.workdir)
+        f = os.path.join(d, 'ckpt.hdf5')
+        shutil.copyfile(self.filepath, f)
+        cfg, spec = self.cfg, self.spec
+        kw = dict(
+            n_live=cfg['n_live'], n_update=cfg['n_update'],
+            enlarge_per_dim=cfg['enlarge_per_dim'],
+            n_points_min=cfg['n_points_min'],
+            split_threshold=cfg['split_threshold'],
+            periodic=None if cfg['periodic'] is None else np.array(
+                cfg['periodic'], dtype=int),
+            n_networks=cfg['n_networks'], n_batch=cfg['n_batch'],
+            n_like_new_bound=cfg['n_like_new_bound'],
+            vectorized=cfg['vectorized'], pass_dict=pr.pass_dict_for(spec),
+            seed=cfg['seed'], blobs_dtype=self.problem.blobs_dtype(),
+            filepath=f, resume=True)
+        if isinstance(self.prior, pr.PriorFn):
+            kw['n_dim'] = spec['d']
+        s = Sampler(self.prior, self.problem, **kw)
+        shutil.rmtree(d, ignore_errors=True)
+        return s
 
     def resume(self):
         """Drop the object and rebuild it from the checkpoint file."""
